@@ -42,8 +42,8 @@ def run(chk):
         """The call is lexically under the send lock, or every package call site of its function is."""
         if under_lock(call):
             return True
-        if depth > 2 or call.fn is None:
-            return False
+        if depth > 2 or call.fn is None or not call.fn.name.startswith("_"):
+            return False  # a public method (send_frame) is called from other modules and from applications: its callers are not all known
         sites = prog.call_sites(repo, call.fn, [WM])
         return bool(sites) and all(holds_lock(s, depth + 1) for s in sites)
 
@@ -86,6 +86,19 @@ def run(chk):
             chk.violation("C11.takeover", c, K.short(c, 60), "(self.notakeover | !(self.compress))",
                           "a message is deflated by a throw-away context while context takeover is in force: the receiver's window then contains a message the shared context never saw, and the next message that refers back into the window is inflated to different bytes (silently, or as a decode error)",
                           path_condition=norm.fmt_cnf(cl))
+    # the throw-away context must not use a larger window than was negotiated: the peer only has to keep the negotiated one
+    clamps = [a for a in ast.walk(gc.node) if isinstance(a, ast.Assign) and isinstance(a.value, ast.Call) and norm.raw(a.value.func) == "min" and any("self.compress" == norm.raw(x) for x in a.value.args)]
+    if clamps:
+        chk.ok("C11.takeover", clamps[0], "a per-message window is clamped to the negotiated one (min(compress, self.compress))")
+    else:
+        chk.violation("C11.takeover", gc, "wbits=-compress", "compress = min(compress, self.compress) when a window was negotiated",
+                      "a per-message compress=15 on a connection that negotiated max_window_bits=9 deflates with a 32 KiB window: a peer that keeps only the negotiated window fails with `invalid distance too far back`")
+    # control frames: the writer refuses what the reader refuses (RFC 6455 5.5: payload <= 125)
+    big = [r for r, cname in K.raises_in(sf.node) if PC.has_lit(PC.pc(r), [("len(message) > 125", True), ("len(message) >= 126", True)], True) is not None and PC.has_lit(PC.pc(r), [("opcode >= WS_CONTROL_FRAME_OPCODE", True), ("opcode < WS_CONTROL_FRAME_OPCODE", False), ("opcode > 7", True), ("opcode & 8", True)], True) is not None]
+    if big:
+        chk.ok("C11.ctl", big[0], "send_frame() refuses a control frame whose payload exceeds 125 bytes (what its own reader rejects)")
+    else:
+        chk.violation("C11.ctl", sf, "send_frame(opcode >= 8, len(message) > 125)", "raise ValueError", "a 126-byte ping or a close reason of 124+ bytes is emitted as a frame that RFC 6455 forbids and aiohttp's own reader rejects with a protocol error")
     # ---- C11.shield (T12) --------------------------------------------------------------------------------------
     # the coroutines that suspend between advancing the shared deflate context and writing its output: those that await
     # the compressor (which may hand the payload to the executor), directly or through another method of the writer
@@ -273,17 +286,32 @@ def run(chk):
     n = K.find_rejection(chk, "C11.closing", sf, [("self._closing", True, "close frame already sent"), ("opcode & WSMsgType.CLOSE", False, "not a close frame")], None,
                          "no frame after close", strict_extra=True, allowed_extra=[])
     if n is not None:
-        first = sf.node.body[0] if not isinstance(sf.node.body[0], ast.Expr) else sf.node.body[1]
-        if K.stmt_of(n).parent is first or K.stmt_of(n) in ast.walk(first):
-            chk.ok("C11.closing", n, "the closing test is the first thing send_frame does")
+        gsf = cfg_of(sf.node)
+        ctest = [x for x in gsf.nodes if x.kind == "test" and "self._closing" in norm.raw(x.ast)]
+        effects = [x for x in gsf.nodes if x.in_finally_copy is None and isinstance(x.ast, ast.AST) and (K.node_suspends(x, repo) or K.node_has(x, "self._write_websocket_frame(...)") or K.node_has(x, "self._get_compressor(...)"))]
+        pth = gsf.find_path([gsf.entry], lambda x: x in effects, lambda x: x in ctest, EXPLICIT)
+        if ctest and pth is None:
+            chk.ok("C11.closing", n, "send_frame tests the closing flag before it suspends, compresses or writes anything")
         else:
-            chk.violation("C11.closing", n, K.short(n), "first statement", "work happens before the closing test")
+            chk.violation("C11.closing", n, K.short(n), "closing test before any await / write", "work happens before the closing test", path=gsf.fmt_path(pth) if pth else "")
     cf = repo.func(WM, f"{W}.close")
     fin = [s for s, _b in K.stmts(cf, "self._closing = True") if K.in_finally(s) is not None]
-    if fin:
+    aw0 = min((a.lineno for a in prog.awaits_in(cf.node)), default=10**9)
+    early = [s for s, _b in K.stmts(cf, "self._closing = True") if not PC.pc(s) and s.lineno < aw0 and s.parent is cf.node]
+    if early:
+        chk.ok("C11.closing", early[0], "close(): _closing is set before the first suspension point (no data frame can be accepted while the Close frame is on its way)")
+    elif fin:
         chk.ok("C11.closing", fin[0], "close(): _closing is set in a finally (also when sending the close frame failed or was cancelled)")
     else:
         chk.violation("C11.closing", cf, "finally: self._closing = True", "", "a failed/cancelled close leaves the writer open for data frames")
+    # no data frame after Close (RFC 6455 5.5.1): frames that passed the closing test and are compressing / waiting for the send lock must reach
+    # the wire before the Close frame, so close() goes through the same lock
+    closes = [c for c, _b in K.exprs(cf, "self.send_frame(...)")]
+    if closes and all(under_lock(c) for c in closes) and (early or any(s_.lineno < closes[0].lineno for s_, _b in K.stmts(cf, "self._closing = True"))):
+        chk.ok("C11.closing", closes[0], "close(): the Close frame is written under the send lock, after _closing was set: frames already inside send_frame() go first, none can follow")
+    else:
+        chk.violation("C11.closing", closes[0] if closes else cf, K.short(closes[0], 60) if closes else "send_frame(CLOSE)", "self._closing = True; async with self._send_lock: send_frame(CLOSE)",
+                      "the Close frame is written without the send lock and _closing is set only afterwards: a large compressed message still in the executor (or a small one queued on the lock) is written *after* Close - the peer, which stops reading at Close, loses it although send_bytes() returned normally")
     # ---- C11.rx: "however the frames are segmented in transit" - the reader's resumable-state rules are shared with C12 ----
     from rules import C12
 
